@@ -10,7 +10,7 @@ CHECKS = {
                             "blocked bounded-queue and mutex sleepers are covered by the C09 and C08 checks"]},
     "C03": {"scenarios": ["c03"], "quick_budget_s": 50, "thorough_budget_s": 900,
             "real": ["exception paths of task_dispatcher, task_group_context, start_for/start_reduce/for_each/invoke/pipeline tasks, task_group, task_arena::execute delegation, flow graph function_node"]},
-    "C04": {"scenarios": ["c04"], "quick_budget_s": 50, "thorough_budget_s": 900,
+    "C04": {"scenarios": ["c04", "c04b"], "quick_budget_s": 50, "thorough_budget_s": 900,
             "real": ["src/tbb/task_group_context.cpp (bind, propagate, cancel), context lists in thread_data, parallel_for as the binder"]},
     "C05": {"scenarios": ["c05"], "quick_budget_s": 50, "thorough_budget_s": 900,
             "real": ["include/oneapi/tbb/parallel_for.h, partitioner.h, blocked_range*.h, blocked_nd_range.h, parallel_for_each.h, parallel_invoke.h + scheduler"],
@@ -91,7 +91,7 @@ MANIFEST_TEXT = {
     "C16": {"level": "Seeded search over schedules of 1-4 application threads using 1-3 arenas (max_concurrency 1-4, reserved 0-2, three priorities) through execute / enqueue / task_group waits with isolate, on 1-8 simulated CPUs, optionally under global_control(max_allowed_parallelism, 1..4), with observers on every arena; "
                      "oracle inside every body: threads inside an arena <= max_concurrency (+1 for a one-thread arena with enqueued work), pairwise distinct current_thread_index below the bound, reserved slots only held by application threads, isolation scopes respected while waiting, simultaneous workers in user work <= L-1 (mandatory worker allowed when L-1 == 0); observer entry/exit calls paired per thread.",
             "note": "threads holding a slot without executing a body are not visible to the oracle (it counts bodies); the allotment-sum clause is covered only through oneTBB's internal assertion (known finding recorded)."},
-    "C04": {"level": "Seeded search over schedules (incl. x86-TSO delays on the context objects) of context forests of 2-12 heap-allocated task_group_contexts (bound / isolated) that are bound lazily by nested parallel_for calls exactly as in production, with 1-3 cancel_group_execution calls issued from bodies inside the forest and from external threads, racing with binders; "
+    "C04": {"level": "Seeded search over schedules (incl. x86-TSO delays on the context objects) of context forests of 2-12 heap-allocated task_group_contexts (bound / isolated) that are bound lazily by nested parallel_for calls exactly as in production, with 1-3 cancel_group_execution calls issued from bodies inside the forest and from external threads, racing with binders, plus a focused scenario (chains of 3-4 bound contexts, store buffers always on, one cancel released just before the target's first child is bound); "
                      "oracle at quiescence (binder threads still alive): at most one true per context (exactly one if no ancestor was cancelled), every bound context beneath a cancelled one is cancelled, nothing else is, the state persists until reset, task_group resets its own context.",
             "note": "contexts that outlive the thread they were bound on (orphaned context lists) are outside the scenario; the oracle runs while the binder threads are alive."},
     "C03": {"level": "Seeded search over schedules and throw plans: the k-th..k+m-th invocation of {body, Range copy constructor, Range splitting constructor, reduction-body splitting constructor, join} throws a tagged exception inside parallel_for (4 partitioners), parallel_reduce, parallel_for_each, parallel_invoke, parallel_pipeline, task_group (wait / run_and_wait), task_arena::execute and a flow-graph function_node, optionally with a concurrent external cancel; "
